@@ -635,7 +635,7 @@ func c19Targets() []c19Target {
 			_ = sc.NewTranscriptXOF(x)
 			return c19Res{ok: true}
 		}})
-	return ts
+	return append(ts, c19MoreTargets()...)
 }
 
 var c19T []c19Target
